@@ -113,14 +113,187 @@ def run_parser(fmt, path):
     return {'ok': enc(plain(out))}
 
 
-def real_format(ctx_values, value):
-    """pypyr's own formatter on a value: the oracle for "its formatted value" in the monitors."""
+_UNSET = object()
+
+
+class default_encoding:
+    """`with default_encoding(x):` — pypyr.config.config.default_encoding = x inside, RESTORED on the way out
+    (what env PYPYR_ENCODING=x does at start-up). `_UNSET` leaves the configuration alone."""
+
+    def __init__(self, value=_UNSET):
+        self.value = value
+
+    def __enter__(self):
+        if self.value is not _UNSET:
+            from pypyr.config import config
+            self.old = config.default_encoding
+            config.default_encoding = self.value
+        return self
+
+    def __exit__(self, *exc):
+        if self.value is not _UNSET:
+            from pypyr.config import config
+            config.default_encoding = self.old
+        return False
+
+
+def platform_encoding():
+    """What open(encoding=None) uses here, as a canonical codec name (the model assumes 'utf-8')."""
+    import codecs
+    import locale
+    try:
+        return codecs.lookup(locale.getpreferredencoding(False)).name
+    except LookupError:
+        return 'unknown'
+
+
+def canonical_encoding(name):
+    import codecs
+    try:
+        return codecs.lookup(name).name
+    except LookupError:
+        return name
+
+
+def run_write_cfg(fmt, ctx_values, cfg, dflt=_UNSET):
+    """The real filewrite step with the step input `cfg` given as is (so an `encoding` entry may be a string, an
+    explicit None, or absent), under config.default_encoding = dflt."""
+    from pypyr.context import Context
+    modname, key = WRITE[fmt]
+    mod = importlib.import_module(modname)
+    ctx = Context(dict(ctx_values))
+    ctx[key] = dict(cfg)
+    try:
+        with default_encoding(dflt):
+            mod.run_step(ctx)
+    except Exception as e:
+        return err(e)
+    return {'ok': True}
+
+
+def run_fetch_cfg(fmt, ctx_values, cfg, dflt=_UNSET):
+    """The real fetch step with the step input `cfg` (a path string or a mapping) given as is."""
+    from pypyr.context import Context
+    modname, skey = FETCH[fmt]
+    mod = importlib.import_module(modname)
+    ctx = Context(dict(ctx_values))
+    ctx[skey] = cfg if isinstance(cfg, str) else dict(cfg)
+    try:
+        with default_encoding(dflt):
+            mod.run_step(ctx)
+    except Exception as e:
+        return err(e)
+    return {'ok': enc(plain(dict(ctx)))}
+
+
+def run_parser_args(fmt, args, dflt=_UNSET):
+    """get_parsed_context(args) of the real file context parser — args as given: None, [] or a list of strings —
+    under config.default_encoding = dflt. {'ok': wire} | {'none': True} (returned None) | {'err', 'msg'}."""
+    mod = importlib.import_module(PARSER[fmt])
+    try:
+        with default_encoding(dflt):
+            out = mod.get_parsed_context(None if args is None else list(args))
+    except Exception as e:
+        return err(e)
+    if out is None:
+        return {'none': True}
+    return {'ok': enc(plain(out))}
+
+
+def real_format(ctx_values, value, fmt=None):
+    """pypyr's own formatter on a value: the oracle for "its formatted value" in the monitors. `fmt='json'`: with
+    the mapping keys as JSON can hold them (`json_coerce_keys`) - a formatted payload with an int/bool/None/float key
+    is not JSON-representable as it stands; what a JSON file can give back of it is the member name json.dump writes."""
     from pypyr.context import Context
     ctx = Context(dict(ctx_values))
     try:
-        return {'ok': enc(plain(ctx.get_formatted_value(value)))}
+        out = plain(ctx.get_formatted_value(value))
+        if fmt == 'json':
+            out = json_coerce_keys(out)
+        return {'ok': enc(out)}
     except Exception as e:
         return err(e)
+
+
+def json_key(k):
+    """The member name `json.dump` writes for a mapping key, from the documentation of json.JSONEncoder ("keys
+    that are not str are coerced": int/float by repr, True/False/None -> true/false/null; other types: TypeError)."""
+    if isinstance(k, str):
+        return k
+    if k is True:
+        return 'true'
+    if k is False:
+        return 'false'
+    if k is None:
+        return 'null'
+    if isinstance(k, float):
+        return float.__repr__(k)
+    if isinstance(k, int):
+        return int.__repr__(k)
+    raise TypeError(f'keys must be str, int, float, bool or None, not {type(k).__name__}')
+
+
+def json_coerce_keys(v):
+    """What a JSON write -> read cycle makes of the keys: each becomes `json_key`; two keys with the same member name
+    (both members are written): `json.load` keeps the first position and the last value (dict assignment)."""
+    if isinstance(v, dict):
+        out = {}
+        for k, x in v.items():
+            out[json_key(k)] = json_coerce_keys(x)
+        return out
+    if isinstance(v, (list, tuple)):
+        return [json_coerce_keys(x) for x in v]
+    return v
+
+
+def has_nonstr_key(v):
+    if isinstance(v, dict):
+        return any(not isinstance(k, str) or has_nonstr_key(x) for k, x in v.items())
+    if isinstance(v, (list, tuple)):
+        return any(has_nonstr_key(x) for x in v)
+    return False
+
+
+class json_config:
+    """`with json_config(indent, ascii):` pypyr's config.json_indent / config.json_ascii set for the real steps in this
+    process, restored afterwards. `indent` / `ascii` None = leave the setting as it is (the defaults 2 / False);
+    the string 'none' stands for json_indent = None."""
+
+    def __init__(self, indent=None, ascii=None):
+        self.indent, self.ascii = indent, ascii
+
+    def __enter__(self):
+        from pypyr.config import config
+        self.cfg = config
+        self.old = (config.json_indent, config.json_ascii)
+        if self.indent is not None:
+            config.json_indent = None if self.indent == 'none' else self.indent
+        if self.ascii is not None:
+            config.json_ascii = self.ascii
+        return self
+
+    def __exit__(self, *a):
+        self.cfg.json_indent, self.cfg.json_ascii = self.old
+        return False
+
+
+def model_json_opts(indent, ascii):
+    """The same settings in the terms of the driver's `jsonprint` op: indent absent -> 2, 'none' -> null, a negative
+    int prints like 0 (`' ' * indent`)."""
+    o = {}
+    if indent is not None:
+        o['indent'] = None if indent == 'none' else max(int(indent), 0)
+    if ascii is not None:
+        o['ascii'] = bool(ascii)
+    return o
+
+
+def pypyr_json_dump(doc):
+    """The text `JsonRepresenter.dump` (fileformatjson's writer) produces for a document, under the current config."""
+    from pypyr.utils.filesystem import JsonRepresenter
+    s = io.StringIO()
+    JsonRepresenter().dump(s, doc)
+    return s.getvalue()
 
 
 def render(fmt, doc):
@@ -240,27 +413,37 @@ def clean_dir():
 #   {"kind": "formatraw", "format", "files": [[name, text], ...], "ctx": wire, "route": "inplace"|"outdir"}
 
 def run_op(op):
-    """Run one op with the real steps in the current (scratch) directory. JSON-able observation."""
+    """Run one op with the real steps in the current (scratch) directory. JSON-able observation. An op with a
+    `dflt` entry runs under config.default_encoding = dflt (restored afterwards: the next op of the session sees
+    the configuration as it was)."""
+    if 'dflt' in op:
+        with default_encoding(op['dflt']):
+            return _run_op(op)
+    return _run_op(op)
+
+
+def _run_op(op):
     from .common import dec
     from pypyr.context import Context
     kind, fmt = op['kind'], op['format']
     if kind == 'roundtrip':
         ctx = dec(op['ctx'])
         path = op['name']
-        w, _ = run_write(fmt, ctx, path, dec(op['payload']), True, None)
+        oenc = op.get('encoding') if fmt != 'toml' else None
+        w, _ = run_write(fmt, ctx, path, dec(op['payload']), True, oenc)
         if 'err' in w:
             return {'write': w}
         obs = {'write': 'ok'}
         try:
             with open(path, 'rb') as f:
-                obs['text'] = f.read().decode('utf-8')
+                obs['text'] = f.read().decode('utf-8' if fmt == 'toml' else (oenc or op.get('dflt') or 'utf-8'))
         except Exception as e:
             obs['text'] = {'unreadable': type(e).__name__}
         if op['reader'] == 'parser':
-            r = run_parser(fmt, path)
+            r = run_parser_args(fmt, op['args'], _UNSET) if 'args' in op else run_parser(fmt, path)
             obs['read'] = r
         else:
-            r = run_fetch(fmt, {}, path, 'out', False, None)
+            r = run_fetch(fmt, {}, path, 'out', False, oenc)
             obs['read'] = {'ok': dict((json.dumps(k), v) for k, v in r['ok']['d']).get('"out"', {'missing': True})} \
                 if 'ok' in r else r
         return obs
